@@ -2188,6 +2188,9 @@ static void _ov_splice(float **pcm,float **lappcm,
     w=w2;
   }
 
+  /* vorbis_window() has no window to offer: nothing to lap with */
+  if(!w)return;
+
   /* splice */
   for(j=0;j<ch1 && j<ch2;j++){
     float *s=lappcm[j];
